@@ -25,6 +25,8 @@ type cbFamily struct {
 	match func(p *packages.Package, fd *ast.FuncDecl) *types.Var
 	// delegSig says whether a callee signature is a sibling (returns callback index)
 	delegSig func(sig *types.Signature, name string) (int, bool)
+	// delegFunc (optional) admits further callees by their identity
+	delegFunc func(f *types.Func) (int, bool)
 }
 
 func calleeFunc(info *types.Info, call *ast.CallExpr) *types.Func {
@@ -85,10 +87,17 @@ func (c *Ctx) analyseCallbackFunc(fam cbFamily, p *packages.Package, fd *ast.Fun
 		if sig == nil {
 			return 0, false
 		}
-		return fam.delegSig(sig, f.Name())
+		if i, ok := fam.delegSig(sig, f.Name()); ok {
+			return i, true
+		}
+		if fam.delegFunc != nil {
+			return fam.delegFunc(f)
+		}
+		return 0, false
 	}
 	a := newA3(c, info, mode, fam.prefix+".CNT", name)
 	a.collectAssigned(fd.Body)
+	a.collectBoundLits(fd.Body)
 
 	// tracked counters: integer variables occurring in return expressions
 	// (outside function literals) and named results.
